@@ -53,6 +53,7 @@ import (
 	"slices"
 	"strings"
 	"sync"
+	"sync/atomic"
 
 	"golang.org/x/tools/go/ssa"
 
@@ -92,6 +93,11 @@ type World struct {
 	Trace              bool
 
 	extCache sync.Map // *ssa.Function -> externalFn (or nil)
+	// QueryCache memoises solver verdicts across paths: key = structural hash of
+	// the set of path-condition conjuncts + the extra conjunct + encoding.
+	QueryCache sync.Map // queryKey -> queryAns
+	CacheHits  atomic.Int64
+	NoQueryCache bool
 	nameMu   sync.Mutex
 	mu       sync.Mutex
 	SolverErrors map[string]int
@@ -418,7 +424,7 @@ func visitInstr(fr *frame, instr ssa.Instruction) continuation {
 		m.spawn(fr.i, instr, fn, args)
 
 	case *ssa.MakeChan:
-		n, ok := m.concretizeInt(fr.get(instr.Size), 0, 1024)
+		n, ok := m.concretizeInt(fr.get(instr.Size), 0, 1<<20)
 		if !ok {
 			panic(engineError("make(chan) with an out-of-bound size"))
 		}
